@@ -3,6 +3,7 @@
 package streams
 
 import (
+	"bufio"
 	"bytes"
 	"fmt"
 	"io"
@@ -20,6 +21,8 @@ import (
 	casketerrors "github.com/tmpim/casket/caskethttp/errors"
 	"github.com/tmpim/casket/caskethttp/httpserver"
 	casketlog "github.com/tmpim/casket/caskethttp/log"
+	_ "github.com/tmpim/casket/caskethttp/basicauth"
+	_ "github.com/tmpim/casket/caskethttp/gzip"
 	_ "github.com/tmpim/casket/caskethttp/rewrite"
 	"github.com/tmpim/casket/casketfile"
 
@@ -39,7 +42,10 @@ import (
 //                   p<hex path> r.URL.Path = path (in place, as rewrite/ext/internal do)
 //                   u<hex path> r.URL = &url.URL{Path: path} (a new URL object)
 //   3 errlens     <status>=<len of default error body>,...
-//   4 wrap        - | errors | rewrite   (the real errors / rewrite directive between log and the handler;
+//   4 wrap        - | errors | rewrite | gzip  (the real errors / rewrite / gzip directive between log and the
+//                   handler; with gzip every request offers gzip, and because the compressed length is not
+//                   something the model computes, the answer carries size DIFFERENCES: a line's size field is
+//                   |logged size - bytes the client received| and the client's size field is 0;
 //                   rewrite: ^/b$ -> /a/b, ^/a/b$ -> /b, ^/c$ -> /zzz, ^/a/$ -> /c)
 //   5 writer      what is under the log recorder:
 //                   plain  httptest.ResponseRecorder (no io.ReaderFrom — like HTTP/2 or another wrapper)
@@ -251,6 +257,16 @@ func c20LogEval(f []string) (string, []string) {
 		}
 		defer eh.Log.Close()
 	}
+	if f[4] == "gzip" {
+		ctrl.Dispenser = casketfile.NewDispenser("Testfile", strings.NewReader("gzip\n"))
+		setup, err := casket.DirectiveAction("http", "gzip")
+		if err != nil {
+			return "setup-error:" + err.Error(), nil
+		}
+		if err := setup(ctrl); err != nil {
+			return "setup-error:" + err.Error(), nil
+		}
+	}
 	if f[4] == "rewrite" {
 		ctrl.Dispenser = casketfile.NewDispenser("Testfile", strings.NewReader(
 			"rewrite ^/b$ /a/b\nrewrite ^/a/b$ /b\nrewrite ^/c$ /zzz\nrewrite ^/a/$ /c\n"))
@@ -269,6 +285,9 @@ func c20LogEval(f []string) (string, []string) {
 	}
 
 	clients := make([]string, len(reqs))
+	clientSize := make([]int, len(reqs))
+	compressed := make([]bool, len(reqs))
+	gz := f[4] == "gzip"
 	var ts *httptest.Server
 	var hc *http.Client
 	if f[5] == "h1" {
@@ -282,6 +301,9 @@ func c20LogEval(f []string) (string, []string) {
 		if ts != nil {
 			req, _ := http.NewRequest("GET", ts.URL+paths[i], nil)
 			req.Header.Set("X-Id", strconv.Itoa(i))
+			if gz {
+				req.Header.Set("Accept-Encoding", "gzip")
+			}
 			resp, err := hc.Do(req)
 			if err != nil {
 				clients[i] = "client-error"
@@ -294,10 +316,17 @@ func c20LogEval(f []string) (string, []string) {
 				return
 			}
 			clients[i] = fmt.Sprintf("%d.%d", resp.StatusCode, len(b))
+			clientSize[i], compressed[i] = len(b), resp.Header.Get("Content-Encoding") == "gzip"
+			if gz {
+				clients[i] = fmt.Sprintf("%d.0", resp.StatusCode)
+			}
 			return
 		}
 		req := httptest.NewRequest("GET", "http://example.test"+paths[i], nil)
 		req.Header.Set("X-Id", strconv.Itoa(i))
+		if gz {
+			req.Header.Set("Accept-Encoding", "gzip")
+		}
 		rec := httptest.NewRecorder()
 		if f[5] == "rf" {
 			srv.ServeHTTP(c20RFClient{rec}, req)
@@ -305,6 +334,10 @@ func c20LogEval(f []string) (string, []string) {
 			srv.ServeHTTP(rec, req)
 		}
 		clients[i] = fmt.Sprintf("%d.%d", rec.Code, rec.Body.Len())
+		clientSize[i], compressed[i] = rec.Body.Len(), rec.Header().Get("Content-Encoding") == "gzip"
+		if gz {
+			clients[i] = fmt.Sprintf("%d.0", rec.Code)
+		}
 	}
 	if f[1] == "1" {
 		var wg sync.WaitGroup
@@ -335,6 +368,19 @@ func c20LogEval(f []string) (string, []string) {
 			w := strings.Split(l, " ")
 			if len(w) != 3 {
 				return "garbled-line:" + l, nil
+			}
+			if gz {
+				// size as a difference to what this request's client received
+				id, err1 := strconv.Atoi(w[0])
+				sz, err2 := strconv.Atoi(w[2])
+				if err1 != nil || err2 != nil || id < 0 || id >= len(reqs) {
+					return "garbled-line:" + l, nil
+				}
+				d := sz - clientSize[id]
+				if d < 0 {
+					d = -d
+				}
+				w[2] = strconv.Itoa(d)
 			}
 			lines = append(lines, strings.Join(w, "."))
 		}
@@ -373,6 +419,15 @@ func c20LogEval(f []string) (string, []string) {
 	}
 	if f[4] == "rewrite" {
 		tags = append(tags, "rewrite-directive-inside")
+	}
+	if gz {
+		tags = append(tags, "gzip-directive-inside")
+		for i := range compressed {
+			if compressed[i] && clientSize[i] > 0 {
+				tags = append(tags, "compressed-body-logged:"+f[5])
+				break
+			}
+		}
 	}
 	tags = append(tags, "writer="+f[5])
 	for _, sc := range probe.scripts {
@@ -498,6 +553,7 @@ func c20LogGen(g *hx.Gen) {
 		for _, e := range excs {
 			c20LogCase(g, []string{c20Dir(s, e...)}, false, allReqs())
 			c20LogCase(g, []string{c20Dir(s, e...)}, false, allReqs(), "rewrite")
+			c20LogCase(g, []string{c20Dir(s, e...)}, false, allReqs(), "gzip")
 		}
 	}
 	for _, s1 := range c20Scopes {
@@ -515,6 +571,7 @@ func c20LogGen(g *hx.Gen) {
 	for _, o := range outcomes {
 		for _, p := range []string{"/a/x", "/zzz"} {
 			for _, kind := range []string{"plain", "rf", "h1"} {
+				c20LogCase(g, []string{c20Dir("/a"), c20Dir("/a")}, false, []string{hx.HS(p) + ":" + c20Outcome(o)}, "gzip", kind)
 				c20LogCase(g, []string{c20Dir("/a"), c20Dir("/a")}, false, []string{hx.HS(p) + ":" + c20Outcome(o)}, "-", kind)
 				c20LogCase(g, []string{c20Dir("/a"), c20Dir("/a")}, false, []string{hx.HS(p) + ":" + c20Outcome(o)}, "errors", kind)
 			}
@@ -567,10 +624,123 @@ func c20LogGen(g *hx.Gen) {
 			}
 			reqs = append(reqs, hx.HS(hx.Pick(g.Rng, c20Paths))+":"+c20Outcome(o))
 		}
-		c20LogCase(g, dirs, g.Rng.Chance(1, 2), reqs, hx.Pick(g.Rng, []string{"-", "-", "errors", "rewrite"}), hx.Pick(g.Rng, []string{"plain", "plain", "rf", "h1"}))
+		c20LogCase(g, dirs, g.Rng.Chance(1, 2), reqs, hx.Pick(g.Rng, []string{"-", "-", "errors", "rewrite", "gzip"}), hx.Pick(g.Rng, []string{"plain", "plain", "rf", "h1"}))
 	}
 }
 
 func init() {
 	hx.Register(&hx.Stream{ID: "C20", Name: "c20.log", Gen: c20LogGen, Eval: c20LogEval})
+}
+
+// ---------------------------------------------------------------------------------------------
+// c20.inject — can one request make one log record span several physical lines?
+//   0 format (hex, no CR/LF in it)   1 request target (hex, as sent on the wire)
+//   2 user name sent with HTTP basic auth and a wrong password against a real `basicauth /` (hex), or -
+//   out: lf=<number of LF bytes in the log file> cr=<number of CR bytes>     (one request is made)
+// The real log directive (and basicauth) set up from Casketfile text, the real Server.ServeHTTP.
+// ---------------------------------------------------------------------------------------------
+
+func c20InjectEval(f []string) (string, []string) {
+	if len(f) != 3 {
+		return "bad-case", nil
+	}
+	dir, err := os.MkdirTemp("", "verif-c20i-")
+	if err != nil {
+		return "setup-error:" + err.Error(), nil
+	}
+	defer os.RemoveAll(dir)
+	out := filepath.Join(dir, "access.log")
+	ctrl := casket.NewTestController("http", fmt.Sprintf("log / %q %q\n", out, hx.UnHS(f[0])))
+	cfg := httpserver.GetConfig(ctrl)
+	setup, err := casket.DirectiveAction("http", "log")
+	if err != nil {
+		return "setup-error:" + err.Error(), nil
+	}
+	if err := setup(ctrl); err != nil {
+		return "setup-error:" + err.Error(), nil
+	}
+	lg, ok := cfg.Middleware()[0](httpserver.EmptyNext).(casketlog.Logger)
+	if !ok {
+		return "setup-error:not a log.Logger", nil
+	}
+	for _, rule := range lg.Rules {
+		for _, e := range rule.Entries {
+			c20StartMu.Lock()
+			err := e.Log.Start()
+			c20StartMu.Unlock()
+			if err != nil {
+				return "setup-error:" + err.Error(), nil
+			}
+			defer e.Log.Close()
+		}
+	}
+	if f[2] != "-" {
+		ctrl.Dispenser = casketfile.NewDispenser("Testfile", strings.NewReader("basicauth / user pass\n"))
+		setup, err := casket.DirectiveAction("http", "basicauth")
+		if err != nil {
+			return "setup-error:" + err.Error(), nil
+		}
+		if err := setup(ctrl); err != nil {
+			return "setup-error:" + err.Error(), nil
+		}
+	}
+	cfg.AddMiddleware(func(next httpserver.Handler) httpserver.Handler {
+		return httpserver.HandlerFunc(func(w http.ResponseWriter, r *http.Request) (int, error) {
+			w.Write([]byte("ok"))
+			return 0, nil
+		})
+	})
+	srv, err := httpserver.NewServer("127.0.0.1:0", []*httpserver.SiteConfig{cfg})
+	if err != nil {
+		return "setup-error:" + err.Error(), nil
+	}
+	// the request exactly as net/http's server would parse it from the wire
+	raw := "GET " + hx.UnHS(f[1]) + " HTTP/1.1\r\nHost: example.test\r\nReferer: http://ref.example/\r\n"
+	if f[2] != "-" {
+		tmp, _ := http.NewRequest("GET", "/", nil)
+		tmp.SetBasicAuth(hx.UnHS(f[2]), "wrong")
+		raw += "Authorization: " + tmp.Header.Get("Authorization") + "\r\n"
+	}
+	req, err := http.ReadRequest(bufio.NewReader(strings.NewReader(raw + "\r\n")))
+	if err != nil {
+		return "bad-case:" + err.Error(), nil
+	}
+	req.RemoteAddr = "192.0.2.7:5555"
+	srv.ServeHTTP(httptest.NewRecorder(), req)
+	b, err := os.ReadFile(out)
+	if err != nil {
+		return "setup-error:" + err.Error(), nil
+	}
+	tags := []string{"record-written"}
+	if strings.Contains(strings.ToLower(hx.UnHS(f[1])), "%0a") || strings.Contains(strings.ToLower(hx.UnHS(f[1])), "%0d") {
+		tags = append(tags, "encoded-line-break-in-url")
+	}
+	if f[2] != "-" && strings.ContainsAny(hx.UnHS(f[2]), "\r\n") {
+		tags = append(tags, "line-break-in-basic-auth-user")
+	}
+	return fmt.Sprintf("lf=%d cr=%d", bytes.Count(b, []byte("\n")), bytes.Count(b, []byte("\r"))), tags
+}
+
+func c20InjectGen(g *hx.Gen) {
+	formats := []string{
+		"{path}", "{rewrite_path}", "{file}", "{dir}", "{fragment}", "{?x}", "{?y}", "{user}", "{uri}", "{query}", "{path_escaped}",
+		"{>Referer}", "{request}", "{remote} - {user} [fixed] \"{method} {uri} {proto}\" {status} {size}",
+		"{remote} - {user} \"{method} {path} {proto}\" {status} {size} \"{?x}\"",
+	}
+	targets := []string{
+		"/", "/a%0Ab", "/a%0D%0Ab", "/dir%0A/file%0A.txt", "/p?x=%0A", "/p?x=1%0D%0A10.0.0.1%20-%20admin%20%22GET%20/admin%22%20200%205&y=%0a",
+		"/plain?x=y", "/%0A", "/a%0ab?x=%0d",
+	}
+	users := []string{"-", "alice", "eve\n10.0.0.1 - admin \"GET /admin HTTP/1.1\" 200 5", "a\r\nb", "user"}
+	for _, f := range formats {
+		for _, t := range targets {
+			for _, u := range users {
+				g.Case(hx.HS(f), hx.HS(t), map[bool]string{true: "-", false: hx.HS(u)}[u == "-"])
+			}
+		}
+	}
+}
+
+func init() {
+	hx.Register(&hx.Stream{ID: "C20", Name: "c20.inject", Gen: c20InjectGen, Eval: c20InjectEval})
 }
